@@ -159,6 +159,12 @@ pub fn cerror(e: &Error) -> String {
         WrongInitialization { declared, given_type, .. } => {
             format!("WrongInitialization({},{})", ctype(declared), ctype(given_type))
         }
+        // a variant this harness does not know (added by a later version of the crate): its name
+        #[allow(unreachable_patterns)]
+        other => {
+            let text = format!("{other:?}");
+            text.split(|c: char| !(c.is_alphanumeric() || c == '_')).next().unwrap_or("").to_string()
+        }
     }
 }
 
